@@ -1,7 +1,7 @@
 /-
   C10 lemmas, part 8: the reference semantics — a byte-at-a-time automaton.  `Sc` is its skeleton (what the
-  `Tidy` conditions talk about), `Abs` adds the unfolded line (in full, however long: a line of `stashSize`
-  bytes or more is passed over when it ends, `flushA`), the component state, the log and the instructions.  Running it over a concatenation is running it over the pieces in turn (`List.foldl_append`),
+  `Tidy` conditions talk about), `Abs` adds the unfolded line (in full, however long: the stash of the
+  parser grows with it, and a line of any length is handed to `procA` when it ends, `flushA`), the component state, the log and the instructions.  Running it over a concatenation is running it over the pieces in turn (`List.foldl_append`),
   which is what makes the parse independent of the chunking once `feed` is shown to compute it.
 -/
 import Echse.Lemmas.Ical7
@@ -53,11 +53,10 @@ def procA (A : Abs) : Abs :=
                 else A.ins ++ [{ verb := verbOf x.1.meth x.1.cur, lines := x.1.cur }]
     { A with cur := [], comp := x.1, log := log, ins := ins' }
 
-/-- a pending line turns out complete: empty lines are passed over, and so is a line that does not fit the
-stash (`stashSize` bytes with the terminator: 1023 bytes of unfolded content fit, 1024 do not) -/
+/-- a pending line turns out complete: an empty line is passed over, any other - of whatever length - is
+acted upon -/
 def flushA (A : Abs) : Abs :=
   if A.cur = [] then { A with sc := {} }
-  else if stashSize ≤ A.cur.length then { A with sc := {}, cur := [] }
   else { (procA A) with sc := {} }
 
 def plainA (A : Abs) (c : Byte) : Abs :=
@@ -82,20 +81,19 @@ theorem runSc_append (s : Sc) (x y : List Byte) : runSc s (x ++ y) = runSc (runS
 
 theorem flushA_sc (A : Abs) : (flushA A).sc = {} := by
   unfold flushA
-  split
-  · rfl
-  · split <;> rfl
+  split <;> rfl
 
 theorem procA_cur (A : Abs) : (procA A).cur = [] := by
+  unfold procA; dsimp only; split <;> rfl
+
+theorem procA_log (A : Abs) : (procA A).log = A.log ++ [A.cur.takeWhile (· ≠ 0)] := by
   unfold procA; dsimp only; split <;> rfl
 
 theorem flushA_cur (A : Abs) : (flushA A).cur = [] := by
   unfold flushA
   split
   · rename_i h; exact h
-  · split
-    · rfl
-    · exact procA_cur A
+  · exact procA_cur A
 
 /-- the skeleton runs on its own -/
 theorem stepA_sc (A : Abs) (c : Byte) : (stepA A c).sc = stepSc A.sc c := by
